@@ -119,7 +119,7 @@ def range_validator(ctx, res: Result, fi: FuncInfo, term_src: str, lo, hi, rule=
     norm = norm or Normaliser(lambda e: repr(e.value) if isinstance(e, ast.Constant) else None)
     facts = facts_at_end(fi.node, norm)
     term = norm.term(ast.parse(term_src, mode="eval").body)
-    ok, why = unit_range(facts, term, repr(lo), repr(hi), lo_strict, hi_strict)
+    ok, why = unit_range(facts, term, lo if isinstance(lo, str) else repr(lo), hi if isinstance(hi, str) else repr(hi), lo_strict, hi_strict)
     rng = f"{'(' if lo_strict else '['}{lo}, {hi}{')' if hi_strict else ']'}"
     inst = label or f"{fi.qualname}:{term_src}"
     res.add(ok, rule, inst, fi.site(), fi.qualname, f"accepted set of {term_src} is exactly {rng}",
